@@ -13,7 +13,8 @@ META = {
             "The exponent of every step of the QED singlet/valence iteration at a_em=0, with the half-step coupling equal to the "
             "midpoint, is proved equal to the exponent of the pure-QCD iterated singlet step built from gamma[1:,0] (index shift "
             "included).",
-    "note": "Block structure of the a_em^0 grids (photon row/column, Sdelta/Vdelta entries) is decided under C30. End-to-end "
+    "note": "Block structure of the a_em^0 grids (photon row/column, Sdelta/Vdelta entries) is decided under C30 for all orders and nf, and "
+            "re-evaluated here for three (order, nf) pairs where the non-singlet sectors differ from each other. End-to-end "
             "convergence with the number of iterations is a runtime quantity and is not decided.",
     "technique": "partial evaluation of sibling kernels + polynomial identity testing",
     "engine": "sa",
@@ -95,6 +96,14 @@ def run(chk):
                                data={"witness": info}, how="PE + PIT F_p")
     finally:
         pe.overrides.pop("ekore.anomalous_dimensions.exp_matrix_2D", None)
+    # ---- the a_em^0 slices the kernels are fed with: (g,S) block = QCD singlet, Sdelta = ns+, (V, Vdelta) = (nsV, ns-), photon and the
+    # (0,0) slot empty - otherwise the QED kernel at a_em = 0 cannot reduce to the QCD one whatever the solver does (rule shared
+    # with C30, evaluated here for the orders where the sectors differ)
+    from .c30 import _case as _grid_case
+
+    for case in (((3, 1), 4), ((4, 1), 3), ((2, 2), 5)):
+        _grid_case(chk, case)
+        n_inst += 1
     chk.floor("instances", n_inst, 32 + 24)
     chk.note(instances=n_inst, files=["src/eko/kernels/non_singlet_qed.py", "src/eko/kernels/singlet_qed.py", "src/eko/kernels/valence_qed.py"])
     chk.explanation = "QED kernels with a_em := 0 compared with their QCD siblings as formulas."
